@@ -579,3 +579,359 @@ Proof.
         intros _. reflexivity.
     + intros p. rewrite <- Hpart. rewrite app_assoc, cnt_app. simpl. lia.
 Qed.
+
+(* ------------------------------------------------------------------ *)
+(* bounds: capacity, growth of the number of kinds, fatal outcomes *)
+
+Lemma size_le_of_lt n k : (n < 2 ^ k)%N -> (N.size n <= k)%N.
+Proof.
+  intros H. destruct (N.eq_dec n 0) as [->|Hn]; [simpl; lia|].
+  rewrite (N.size_log2 n Hn). apply N.le_succ_l. apply N.log2_lt_pow2; lia.
+Qed.
+
+Lemma wanted_capacity_none n : wanted_capacity n = None <-> (2 ^ 29 <= n)%N.
+Proof.
+  unfold wanted_capacity. replace (2 * n + 1 - 1)%N with (2 * n)%N by lia.
+  change CPUKIND_SIZEOF_UNSIGNED_BITS with 32%N.
+  destruct (32 <=? N.size (2 * n) + 1)%N eqn:E.
+  - split; [intros _|reflexivity]. apply N.leb_le in E.
+    destruct (N.lt_ge_cases n (2 ^ 29)) as [Hlt|]; [|assumption]. exfalso.
+    assert (N.size (2 * n) <= 30)%N; [|lia].
+    apply size_le_of_lt. change (2 ^ 30)%N with (2 * 2 ^ 29)%N. lia.
+  - split; [discriminate|]. intros H. apply N.leb_gt in E. exfalso.
+    assert (2 ^ 30 <= 2 * n)%N by (change (2 ^ 30)%N with (2 * 2 ^ 29)%N; lia).
+    pose proof (N.size_gt (2 * n)) as Hs.
+    assert (N.size (2 * n) <= 30)%N by lia.
+    assert (2 ^ N.size (2 * n) <= 2 ^ 30)%N by (apply N.pow_le_mono_r; lia). lia.
+Qed.
+
+Lemma grow_none st : grow st = None <-> (2 ^ 29 <= N.of_nat (length (kinds st)))%N.
+Proof.
+  unfold grow. rewrite <- wanted_capacity_none.
+  destruct (wanted_capacity (N.of_nat (length (kinds st)))); [|tauto].
+  destruct (_ <? _)%N; split; discriminate.
+Qed.
+
+(* register_in_bounds: every slot index written is inside the allocated array,
+   at most nr+1 kinds are added, and the undefined shift needs 2^29 kinds *)
+Lemma internal_register_bounds st cs forced infos flags :
+  internal_register st cs forced infos flags <> IFatal F_OOB /\
+  (internal_register st cs forced infos flags = IFatal F_UB -> (2 ^ 29 <= N.of_nat (length (kinds st)))%N) /\
+  (forall st', internal_register st cs forced infos flags = IOk st' ->
+     (length (kinds st) <= length (kinds st') <= 2 * length (kinds st) + 1)%nat /\
+     (2 * length (kinds st) + 1 <= nr_allocated st')%nat /\
+     (nr_allocated st <= nr_allocated st')%nat).
+Proof.
+  unfold internal_register.
+  destruct (bs_is_empty cs); [repeat split; try discriminate|].
+  destruct (negb _); [repeat split; try discriminate|].
+  destruct (grow st) as [st1|] eqn:Eg.
+  2:{ split; [discriminate|]. split; [|discriminate]. intros _. now apply grow_none. }
+  destruct (grow_spec _ _ Eg) as [G1 [[z G2] G3]].
+  pose proof (reg_loop_no_oob flags forced infos (kinds st1) cs (tail st1)) as NO.
+  rewrite G1 in NO. specialize (NO ltac:(lia)).
+  destruct (reg_loop flags forced infos (kinds st1) cs (tail st1)) as [olds news cs' tl|f] eqn:El.
+  - rewrite G1 in El.
+    destruct (reg_loop_facts _ _ _ _ _ _ _ _ _ _ El) as [_ [_ [F3 [[used [F4 [F5 _]]] F6]]]].
+    assert (Hlen : (length used + length tl = length (tail st1))%nat) by (rewrite F4, app_length; lia).
+    assert (Hall : (nr_allocated st <= length (kinds st) + length (tail st1))%nat).
+    { unfold nr_allocated. rewrite G2, app_length. lia. }
+    destruct (bs_is_empty cs').
+    + split; [discriminate|]. split; [discriminate|]. intros st' [= <-]. unfold nr_allocated in *. simpl.
+      rewrite app_length. lia.
+    + destruct tl as [|slot tl']; [simpl in Hlen; lia|].
+      destruct (k_arr slot); [repeat split; discriminate|].
+      split; [discriminate|]. split; [discriminate|]. intros st' [= <-]. unfold nr_allocated in *. simpl.
+      rewrite !app_length. simpl in *. lia.
+  - split; [congruence|]. split; [|discriminate]. intros [= ->].
+    exfalso. clear - El. revert El. generalize (tail st1) as tl, cs as c. generalize (kinds st1) as olds.
+    induction olds as [|k rest IH]; intros tl c; simpl; [discriminate|].
+    destruct (reg_step flags forced infos k c tl) as [k' n1 cs' tl'|f] eqn:Es.
+    + destruct (bs_is_empty cs'); [discriminate|]. specialize (IH tl' cs').
+      destruct (reg_loop flags forced infos rest cs' tl'); [discriminate|]. intros [= ->]. now apply IH.
+    + intros [= ->]. unfold reg_step in Es.
+      destruct (compare_inclusion c (k_cpuset k)); try discriminate;
+        destruct tl; try discriminate; destruct (k_arr k0); discriminate.
+Qed.
+
+(* the stale-slot memory error needs a slot whose array pointer is not NULL *)
+Lemma internal_register_clean st cs forced infos flags :
+  Forall clean (tail st) ->
+  internal_register st cs forced infos flags <> IFatal F_STALE /\
+  (forall st', internal_register st cs forced infos flags = IOk st' -> Forall clean (tail st')).
+Proof.
+  intros Hc. unfold internal_register.
+  destruct (bs_is_empty cs); [split; discriminate|].
+  destruct (negb _); [split; discriminate|].
+  destruct (grow st) as [st1|] eqn:Eg; [|split; discriminate].
+  destruct (grow_spec _ _ Eg) as [G1 [[z G2] G3]].
+  assert (Hc1 : Forall clean (tail st1)).
+  { rewrite G2. apply Forall_app. split; [exact Hc|]. clear. induction z; simpl; constructor; auto. reflexivity. }
+  pose proof (reg_loop_no_stale flags forced infos (kinds st1) cs (tail st1) Hc1) as NS.
+  destruct (reg_loop flags forced infos (kinds st1) cs (tail st1)) as [olds news cs' tl|f] eqn:El.
+  - destruct (reg_loop_facts _ _ _ _ _ _ _ _ _ _ El) as [_ [_ [_ [[used [F4 _]] _]]]].
+    assert (Hct : Forall clean tl) by (rewrite F4 in Hc1; apply Forall_app in Hc1; tauto).
+    destruct (bs_is_empty cs'); [split; [discriminate|intros st' [= <-]; exact Hct]|].
+    destruct tl as [|slot tl']; [split; discriminate|].
+    inversion Hct as [|? ? Hs Hct']; subst. unfold clean in Hs. rewrite Hs.
+    split; [discriminate|intros st' [= <-]; exact Hct'].
+  - split; [congruence|discriminate].
+Qed.
+
+(* ------------------------------------------------------------------ *)
+(* ranking *)
+
+(* what the invariant looks at; ranking only permutes kinds and rewrites
+   efficiency / ranking_value *)
+Definition core (k : kind) := (k_cpuset k, k_forced k, k_infos k, k_arr k).
+
+Lemma kind_ok_core regs a b : core a = core b -> kind_ok regs a -> kind_ok regs b.
+Proof.
+  destruct a, b. unfold core. simpl. intros [= -> -> -> ->] [H1 H2 H3 H4 H5 H6 H7].
+  constructor; simpl in *; auto.
+Qed.
+
+Lemma core_cpuset a b : map core a = map core b -> map k_cpuset a = map k_cpuset b.
+Proof.
+  intros H. assert (G : forall l, map k_cpuset l = map (fun c => fst (fst (fst c))) (map core l)).
+  { intros l. rewrite map_map. reflexivity. }
+  rewrite !G, H. reflexivity.
+Qed.
+
+Lemma Inv_core_perm regs st ks' :
+  Inv regs st -> Permutation (map core ks') (map core (kinds st)) -> Inv regs (St ks' (tail st)).
+Proof.
+  intros [Ik Ip It] Hp. constructor; simpl; auto.
+  - rewrite Forall_forall in *. intros k Hk.
+    assert (In (core k) (map core (kinds st))).
+    { eapply Permutation_in; [exact Hp|]. now apply in_map. }
+    apply in_map_iff in H. destruct H as [k2 [H1 H2]]. apply (kind_ok_core regs k2 k H1). auto.
+  - intros p. rewrite <- Ip. apply cnt_perm.
+    assert (G : forall l, map k_cpuset l = map (fun c => fst (fst (fst c))) (map core l)).
+    { intros l. rewrite map_map. reflexivity. }
+    rewrite !G. now apply Permutation_map.
+Qed.
+
+Lemma try_forced_loop_core ks : map core (fst (try_forced_loop ks)) = map core ks.
+Proof.
+  induction ks as [|k r IH]; simpl; [reflexivity|].
+  destruct (k_forced k =? UNKNOWN); [reflexivity|].
+  destruct (try_forced_loop r) as [r' ok]. simpl in *. now rewrite IH.
+Qed.
+
+Lemma try_forced_core ks : map core (fst (try_forced ks)) = map core ks.
+Proof.
+  unfold try_forced. pose proof (try_forced_loop_core ks) as H.
+  destruct (try_forced_loop ks) as [ks' ok]. destruct ok; exact H.
+Qed.
+
+Lemma set_ranks_core rs : forall ks, map core (set_ranks ks rs) = map core ks.
+Proof.
+  induction rs as [|x rs IH]; intros [|k ks]; simpl; try reflexivity. now rewrite IH.
+Qed.
+
+Lemma try_info_core h ks : map core (fst (try_info h ks)) = map core ks.
+Proof.
+  unfold try_info. destruct (info_rank_values h (map summarize ks)); simpl; [apply set_ranks_core|reflexivity].
+Qed.
+
+Lemma insert_kind_perm x l : Permutation (insert_kind x l) (x :: l).
+Proof.
+  induction l as [|y r IH]; simpl; [reflexivity|].
+  destruct (k_rank x <=? k_rank y); [reflexivity|].
+  rewrite IH. apply perm_swap.
+Qed.
+
+Lemma sort_kinds_perm l : Permutation (sort_kinds l) l.
+Proof.
+  induction l as [|x l IH]; simpl; [reflexivity|]. rewrite insert_kind_perm. now constructor.
+Qed.
+
+Lemma insert_kind_sorted x l :
+  StronglySorted Z.le (map k_rank l) -> StronglySorted Z.le (map k_rank (insert_kind x l)).
+Proof.
+  induction l as [|y r IH]; simpl; intros H.
+  - constructor; constructor.
+  - inversion H as [|? ? Hs Hf]; subst.
+    destruct (Z.leb_spec (k_rank x) (k_rank y)) as [Hle|Hgt]; simpl.
+    + constructor; [exact H|]. constructor; [exact Hle|].
+      eapply Forall_impl; [|exact Hf]. intros z Hz. lia.
+    + constructor; [apply IH; exact Hs|].
+      eapply Permutation_Forall; [symmetry; apply Permutation_map, insert_kind_perm|].
+      simpl. constructor; [lia|exact Hf].
+Qed.
+
+Lemma sort_kinds_sorted l : StronglySorted Z.le (map k_rank (sort_kinds l)).
+Proof.
+  induction l as [|x l IH]; simpl; [constructor|]. now apply insert_kind_sorted.
+Qed.
+
+Lemma dup_ranks_false l : dup_ranks l = false <-> NoDup l.
+Proof.
+  induction l as [|x r IH]; simpl.
+  - split; [constructor|reflexivity].
+  - rewrite orb_false_iff, IH. split.
+    + intros [H1 H2]. constructor; [|exact H2]. intros Hin.
+      assert (existsb (Z.eqb x) r = true) by (apply existsb_exists; exists x; split; [exact Hin|apply Z.eqb_refl]).
+      congruence.
+    + intros H. inversion H as [|? ? Hn Hd]; subst. split; [|exact Hd].
+      destruct (existsb (Z.eqb x) r) eqn:E; [|reflexivity].
+      apply existsb_exists in E. destruct E as [y [Hy He]]. apply Z.eqb_eq in He. subst. contradiction.
+Qed.
+
+Lemma sorted_strict l : StronglySorted Z.le l -> NoDup l -> StronglySorted Z.lt l.
+Proof.
+  induction 1 as [|x r Hs IH Hf]; intros Hd; [constructor|].
+  inversion Hd as [|? ? Hn Hd']; subst. constructor; [auto|].
+  rewrite Forall_forall in *. intros y Hy. specialize (Hf y Hy).
+  assert (x <> y) by (intros ->; contradiction). lia.
+Qed.
+
+Lemma set_effs_core l : forall z, map core (set_effs z l) = map core l.
+Proof. induction l as [|k r IH]; intros z; simpl; [reflexivity|]. now rewrite IH. Qed.
+Lemma set_effs_rank l : forall z, map k_rank (set_effs z l) = map k_rank l.
+Proof. induction l as [|k r IH]; intros z; simpl; [reflexivity|]. now rewrite IH. Qed.
+Lemma set_effs_forced l : forall z, map k_forced (set_effs z l) = map k_forced l.
+Proof. induction l as [|k r IH]; intros z; simpl; [reflexivity|]. now rewrite IH. Qed.
+Lemma set_effs_nth l : forall z i k, nth_error (set_effs z l) i = Some k -> k_eff k = z + Z.of_nat i.
+Proof.
+  induction l as [|x r IH]; intros z [|i] k; simpl; try discriminate.
+  - intros [= <-]. simpl. lia.
+  - intros H. rewrite (IH _ _ _ H). lia.
+Qed.
+Lemma clear_effs_core l : map core (clear_effs l) = map core l.
+Proof. unfold clear_effs. rewrite map_map. reflexivity. Qed.
+
+(* after ranking: efficiency = index *)
+Definition ranked (l : list kind) : Prop := forall i k, nth_error l i = Some k -> k_eff k = Z.of_nat i.
+Definition unranked (l : list kind) : Prop := Forall (fun k => k_eff k = UNKNOWN) l.
+
+Lemma finalize_spec x :
+  ranked (finalize x) /\ Permutation (map core (finalize x)) (map core x) /\
+  (dup_ranks (map k_rank x) = false -> StronglySorted Z.lt (map k_rank (finalize x))) /\
+  Permutation (finalize x) (set_effs 0 (sort_kinds x)).
+Proof.
+  unfold finalize. split; [|split; [|split]].
+  - intros i k H. apply set_effs_nth in H. lia.
+  - rewrite set_effs_core. apply Permutation_map, sort_kinds_perm.
+  - intros Hd. rewrite set_effs_rank. apply sorted_strict; [apply sort_kinds_sorted|].
+    apply dup_ranks_false in Hd. eapply Permutation_NoDup; [|exact Hd].
+    symmetry. apply Permutation_map, sort_kinds_perm.
+  - reflexivity.
+Qed.
+
+Lemma clear_effs_unranked l : unranked (clear_effs l).
+Proof. unfold unranked, clear_effs. rewrite Forall_map. apply Forall_forall. reflexivity. Qed.
+
+(* shape of the result for at least two kinds: either sorted by distinct
+   ranking values with efficiency = index, or everything unknown in the old order *)
+Definition rank_shape (ks l : list kind) : Prop :=
+  (exists x, l = finalize x /\ dup_ranks (map k_rank x) = false /\ map core x = map core ks) \/
+  (exists x, l = clear_effs x /\ map core x = map core ks).
+
+Lemma finish_shape ks r : map core (fst r) = map core ks ->
+  (snd r = true -> dup_ranks (map k_rank (fst r)) = false) -> rank_shape ks (finish r).
+Proof.
+  intros Hc Hd. unfold finish. destruct (snd r) eqn:E.
+  - left. exists (fst r). auto.
+  - right. exists (fst r). auto.
+Qed.
+
+Lemma try_forced_ok ks : snd (try_forced ks) = true -> dup_ranks (map k_rank (fst (try_forced ks))) = false.
+Proof.
+  unfold try_forced. destruct (try_forced_loop ks) as [ks' ok]. destruct ok; simpl; [|discriminate].
+  intros H. now apply negb_true_iff.
+Qed.
+Lemma try_info_ok h ks : snd (try_info h ks) = true -> dup_ranks (map k_rank (fst (try_info h ks))) = false.
+Proof.
+  unfold try_info. destruct (info_rank_values h (map summarize ks)); simpl; [|discriminate].
+  intros H. now apply negb_true_iff.
+Qed.
+
+Lemma rank_kinds_shape env a b r : rank_shape (a :: b :: r) (rank_kinds env (a :: b :: r)).
+Proof.
+  unfold rank_kinds. set (ks := a :: b :: r).
+  destruct (heur_of_env env).
+  - destruct (snd (try_forced ks)) eqn:E.
+    + left. exists (fst (try_forced ks)). split; [reflexivity|]. split; [now apply try_forced_ok|apply try_forced_core].
+    + apply finish_shape.
+      * rewrite try_info_core. apply try_forced_core.
+      * apply try_info_ok.
+  - apply finish_shape; [apply try_info_core|apply try_info_ok].
+  - apply finish_shape; [apply try_forced_core|apply try_forced_ok].
+  - apply finish_shape; [apply try_info_core|apply try_info_ok].
+  - right. exists ks. auto.
+Qed.
+
+Lemma rank_kinds_core env ks : Permutation (map core (rank_kinds env ks)) (map core ks).
+Proof.
+  destruct ks as [|a [|b r]]; [reflexivity|reflexivity|].
+  destruct (rank_kinds_shape env a b r) as [[x [-> [_ Hc]]]|[x [-> Hc]]].
+  - rewrite <- Hc. apply finalize_spec.
+  - rewrite clear_effs_core, Hc. reflexivity.
+Qed.
+
+(* efficiencies_all_unknown_or_permutation *)
+Lemma rank_kinds_effs env ks : ranked (rank_kinds env ks) \/ unranked (rank_kinds env ks).
+Proof.
+  destruct ks as [|a [|b r]].
+  - left. intros [|i] k; discriminate.
+  - left. intros [|[|i]] k; simpl; try discriminate. intros [= <-]. reflexivity.
+  - destruct (rank_kinds_shape env a b r) as [[x [-> _]]|[x [-> _]]].
+    + left. apply finalize_spec.
+    + right. apply clear_effs_unranked.
+Qed.
+
+(* when efficiencies are known (>= 2 kinds), the order is the strict order of the ranking values *)
+Lemma rank_kinds_sorted env ks : (2 <= length ks)%nat -> ranked (rank_kinds env ks) ->
+  StronglySorted Z.lt (map k_rank (rank_kinds env ks)).
+Proof.
+  destruct ks as [|a [|b r]]; cbn [length]; try lia. intros _ Hr.
+  destruct (rank_kinds_shape env a b r) as [[x [E [Hd _]]]|[x [E Hc]]]; rewrite E in *.
+  - now apply finalize_spec.
+  - exfalso. assert (Hl : length x = S (S (length r))).
+    { rewrite <- (map_length core x), Hc. simpl. now rewrite map_length. }
+    destruct x as [|k x]; [discriminate|].
+    specialize (Hr 0%nat _ eq_refl). simpl in Hr. unfold UNKNOWN, HWLOC_CPUKIND_EFFICIENCY_UNKNOWN in Hr. discriminate.
+Qed.
+
+(* forced_ranking_respected *)
+Lemma try_forced_loop_all_known ks :
+  Forall (fun k => k_forced k <> UNKNOWN) ks ->
+  try_forced_loop ks = (map (fun k => set_rank k (u64 (k_forced k))) ks, true).
+Proof.
+  induction 1 as [|k r Hk Hr IH]; simpl; [reflexivity|].
+  destruct (Z.eqb_spec (k_forced k) UNKNOWN); [contradiction|]. rewrite IH. reflexivity.
+Qed.
+
+Lemma rank_kinds_forced env ks :
+  heur_of_env env = H_DEFAULT \/ heur_of_env env = H_FORCED ->
+  (2 <= length ks)%nat ->
+  Forall (fun k => k_forced k <> UNKNOWN) ks ->
+  NoDup (map (fun k => u64 (k_forced k)) ks) ->
+  ranked (rank_kinds env ks) /\
+  StronglySorted Z.lt (map (fun k => u64 (k_forced k)) (rank_kinds env ks)).
+Proof.
+  intros Hh Hl Hk Hd. destruct ks as [|a [|b r]]; simpl in Hl; try lia.
+  set (ks := a :: b :: r) in *.
+  set (x := map (fun k => set_rank k (u64 (k_forced k))) ks).
+  assert (Hx : map k_rank x = map (fun k => u64 (k_forced k)) ks) by (unfold x; rewrite map_map; reflexivity).
+  assert (Ht : try_forced ks = (x, true)).
+  { unfold try_forced. rewrite (try_forced_loop_all_known ks Hk). fold x.
+    rewrite Hx. apply dup_ranks_false in Hd. rewrite Hd. reflexivity. }
+  assert (E : rank_kinds env ks = finalize x).
+  { unfold rank_kinds, ks. fold ks. destruct Hh as [-> | ->]; rewrite Ht; reflexivity. }
+  rewrite E. destruct (finalize_spec x) as [F1 [F2 [F3 F4]]]. split; [exact F1|].
+  assert (Hd' : dup_ranks (map k_rank x) = false) by (rewrite Hx; now apply dup_ranks_false).
+  specialize (F3 Hd').
+  assert (G : forall l, Forall (fun k => k_rank k = u64 (k_forced k)) l ->
+              map (fun k => u64 (k_forced k)) l = map k_rank l).
+  { induction 1 as [|k l Hk' Hl' IH]; simpl; [reflexivity|]. now rewrite IH, Hk'. }
+  rewrite G; [exact F3|].
+  eapply Permutation_Forall; [symmetry; exact F4|].
+  assert (Gs : forall l z, Forall (fun k => k_rank k = u64 (k_forced k)) l ->
+               Forall (fun k => k_rank k = u64 (k_forced k)) (set_effs z l)).
+  { induction l as [|k l IH]; intros z Hf; simpl; constructor; inversion Hf; subst; auto. }
+  apply Gs. eapply Permutation_Forall; [symmetry; apply sort_kinds_perm|].
+  unfold x. rewrite Forall_map. apply Forall_forall. reflexivity.
+Qed.
